@@ -370,6 +370,7 @@ fn session_main(args: &Args) {
                     12..=19 => {
                         let k = 2 + rng.below(6) as usize;
                         let mut v: Vec<Item> = (0..k).map(|_| add_i(rng.below(8) as i64, 0, 1)).collect();
+                        let with_orig = rng.chance(1, 4);
                         // the pool also holds spellings that differ from a shared name only in letter case (they are other labels)
                         let mut pool: Vec<String> = names.clone();
                         pool.push(names[0].to_uppercase());
@@ -396,9 +397,23 @@ fn session_main(args: &Args) {
                                 }
                             }
                         }
+                        if with_orig {
+                            v.insert(0, orig(*rng.pick(&[0x4000i64, 0x3000, 0xFE00])));
+                        }
                         (v, None)
                     }
                     // many labels (a table that has grown)
+                    9 if rng.chance(1, 2) => {
+                        // fails only when words are emitted (label too far), with and without a non-default origin before it
+                        let mut v = Vec::new();
+                        if rng.chance(1, 2) {
+                            v.push(orig(*rng.pick(&[0x4000i64, 0x0, 0xF000])));
+                        }
+                        v.push(pc_lab("ld", 0, c).lab(a));
+                        v.push(blkw(300));
+                        v.push(fill(1).lab(c));
+                        (v, None)
+                    }
                     9 => {
                         let mut v = Vec::new();
                         for k in 0..60 {
@@ -562,7 +577,7 @@ fn total_main(args: &Args) {
             }
             // mutations of grammar-derived programs
             "mutate" => {
-                const JUNK: [&str; 32] = ["é", "😀", "\"", "\\", ";", "#", "x", "0x", ".", ".fill", ".blkw", ".stringz", ".break", ".end", ".orig", "#99999", "xFFFFF",
+                const JUNK: [&str; 36] = ["10000000000", "99999999999999999999", "4294967296", "b101", "é", "😀", "\"", "\\", ";", "#", "x", "0x", ".", ".fill", ".blkw", ".stringz", ".break", ".end", ".orig", "#99999", "xFFFFF",
                                            "r8", "R0", ":", ",", "\n", "\u{0}", "#-", "65536", "100000", "0000090210", "12", "-5", "+7", "0", "\r\n"];
                 for _ in 0..n {
                     let ast = random_program(&mut rng, true);
@@ -653,6 +668,15 @@ fn total_main(args: &Args) {
                         texts.push(format!("top .blkw x{:X}\n{}\n", n, tail));
                         texts.push(format!("top .blkw x8000\n.blkw x{:X}\n{}\n", n - 0x8000, tail));
                     }
+                }
+                // the line counter around 2^15 followed by PC-relative instructions with literal offsets of either sign
+                for n in [0x7FFAu32, 0x7FFB, 0x7FFC, 0x7FFD, 0x7FFE, 0x7FFF, 0x8000, 0x8001, 0x8002] {
+                    for tail in ["ld r0 #2", "ld r0 #-2", "br #255", "lea r1 #-256", "jsr #1023", "jsr #-1024", "st r2 #3\nld r0 #-3", "br #0"] {
+                        texts.push(format!("top .blkw x{:X}\n{}\n", n, tail));
+                    }
+                }
+                for t in ["add r1 r1 10000000000", "l1 99999999999999999999 halt", "4294967296 add r0 r0 r0", "add r0 r0 4294967295", ".fill 10000000000", "10000000000"] {
+                    texts.push(format!("{}\n", t));
                 }
                 // numbers written without # or x (they lex as labels) wherever a number or label is expected
                 for t in [".blkw 100000", ".fill 65536", ".FILL 0000090210", ".fill 12", ".blkw 3\nhalt", "add r0 r0 5", "br 3", "ld r0 70000", ".orig 12288", ".stringz 5",
